@@ -353,3 +353,19 @@ MUTANTS.setdefault('C10', []).extend([
     ('ovl-delayed-removal-keeps-reservation', _OI, "        if let Some(path) = path_removed {\n            self.path_mapping.remove(&path);\n        }\n\n        let removed = match self.inodes.remove(&inode) {", "        let removed = match self.inodes.remove(&inode) {"),
     ('ovl-forget-removes-whatever-has-the-name', 'src/overlayfs/mod.rs', "                    if Arc::ptr_eq(&c, &v) {\n                        p.remove_child(v.name.as_str());\n                    }", "                    let _ = c;\n                    p.remove_child(v.name.as_str());"),
 ])
+
+# the overlay mutators' view bookkeeping (unit ovl_bk; proposed and tried by the sub-agent that built it)
+from vx import ovl_bk_mutants_proposed as _BK
+for _k, _v in _BK.MUTANTS.items():
+    MUTANTS.setdefault(_k, []).extend(_v)
+MUTANTS.setdefault('C10', []).extend([
+    ('ovl-insert-child-no-parent-link', 'src/overlayfs/mod.rs', "        *node.parent.lock().unwrap() = Arc::downgrade(self);\n", ""),
+])
+
+# file buffers and file traits (unit filebuf; proposed and tried by the sub-agent that built it)
+from vx import filebuf_mutants_proposed as _FB
+for _k, _v in _FB.MUTANTS.items():
+    MUTANTS.setdefault(_k, []).extend(_v)
+MUTANTS.setdefault('C04', []).extend([
+    ('arc-async-forwarder-calls-itself', 'src/common/file_traits.rs', "            (**self).async_read_at_volatile(buf, offset).await", "            self.async_read_at_volatile(buf, offset).await"),
+])
